@@ -208,6 +208,16 @@ def run_shard(spec, rec):
     v = spec['version']
     rng = gen.rng_for(spec['seed'], 'c03', v, spec.get('zmsg'))
     toks = gen.Tokens(str(spec['shard']))
+    if not spec.get('zmsg'):
+        # a structure row that references another entry than the one it names parses its segment with a foreign structure
+        # (content is dropped silently): such structures cannot be generated for, they are reported
+        for name, node in sorted(tables.messages(v).items()):
+            why = structref.unusable_reason(v, node)
+            rec.evaluation(('structure-table', v, name), nontrivial=False)
+            if why and (why.startswith('missing-reference') or why == 'no-MSH'):
+                rec.violation('structure-lists-child-without-reference', {'kind': 'structure', 'version': v,
+                                                                          'structure': name}, {'why': why},
+                              row='%s|%s' % (v, name))
     for i in range(spec['n']):
         b = build(rng, v, toks, spec.get('zmsg', False))
         if b is None:
@@ -224,6 +234,13 @@ def run_shard(spec, rec):
 
 def replay(case, rec):
     from hl7apy import parser
+    if case.get('kind') == 'structure':
+        node = tables.messages(case['version'])[case['structure']]
+        why = structref.unusable_reason(case['version'], node)
+        if why and (why.startswith('missing-reference') or why == 'no-MSH'):
+            rec.violation('structure-lists-child-without-reference', case, {'why': why},
+                          row='%s|%s' % (case['version'], case['structure']))
+        return
     check(parser, case['version'], case['text'], case['find_groups'], rec, ('replay', 'x'), case.get('instruct', ()))
 
 
